@@ -86,6 +86,7 @@ type record struct {
 	Stats *Stats          `json:"stats,omitempty"`
 	Idx   int64           `json:"idx,omitempty"`
 	Case  json.RawMessage `json:"case,omitempty"`
+	Fine  bool            `json:"fine,omitempty"`
 }
 
 // Stats are the measured counters of one worker.
@@ -122,6 +123,9 @@ type W struct {
 	// restarts a worker after each hang); a check may use them to skip a class of cases that is
 	// already known not to return instead of paying the horizon for each of them.
 	PriorHangs []json.RawMessage
+	// FineFrom..FineTo: case indexes that are announced individually (see WAL)
+	FineFrom, FineTo int64
+	walCount         int64
 
 	guardMu    sync.Mutex
 	guardCase  interface{}
@@ -278,10 +282,21 @@ func (w *W) Sample(v interface{}) {
 	}
 }
 
-// WAL announces the case about to run (crash containment).
+// WAL announces the case about to run (crash containment). To keep it cheap the record is written
+// for every WALBatch-th case only; when a worker dies the driver restarts it at the last announced
+// case in fine mode, in which every case of that batch is announced, so the killing input is
+// identified exactly.
+const WALBatch = 256
+
 func (w *W) WAL(c interface{}) {
+	i := w.idx - 1
+	fine := i >= w.FineFrom && i < w.FineTo
+	w.walCount++
+	if !fine && w.walCount%WALBatch != 1 {
+		return
+	}
 	b, _ := json.Marshal(c)
-	w.emit(record{T: "wal", Idx: w.idx - 1, Case: b})
+	w.emit(record{T: "wal", Idx: i, Case: b, Fine: fine})
 	w.out.Flush()
 }
 
@@ -373,6 +388,10 @@ func workerMain(args []string) {
 	if dl > 0 {
 		w.deadline = time.Now().Add(time.Duration(dl * float64(time.Second)))
 	}
+	if len(args) > 8 {
+		w.FineFrom, _ = strconv.ParseInt(args[7], 10, 64)
+		w.FineTo, _ = strconv.ParseInt(args[8], 10, 64)
+	}
 	if len(args) > 6 && args[6] != "" {
 		if b, err := os.ReadFile(args[6]); err == nil {
 			json.Unmarshal(b, &w.PriorHangs)
@@ -397,6 +416,7 @@ func runWorker(c *Check, tier string, shard, n int, deadline time.Duration, res 
 	restarts := 0
 	var hangs []json.RawMessage
 	startAll := time.Now()
+	fineFrom, fineTo := int64(-1), int64(-1)
 	for {
 		hangFile := ""
 		if len(hangs) > 0 {
@@ -415,8 +435,9 @@ func runWorker(c *Check, tier string, shard, n int, deadline time.Duration, res 
 				remaining = time.Second
 			}
 		}
-		cmd := exec.Command(os.Args[0], "-worker", c.ID, tier, strconv.Itoa(shard), strconv.Itoa(n),
-			strconv.FormatInt(resume, 10), strconv.FormatFloat(remaining.Seconds(), 'f', 1, 64), hangFile)
+		cmd := exec.Command(selfPath(), "-worker", c.ID, tier, strconv.Itoa(shard), strconv.Itoa(n),
+			strconv.FormatInt(resume, 10), strconv.FormatFloat(remaining.Seconds(), 'f', 1, 64), hangFile,
+			strconv.FormatInt(fineFrom, 10), strconv.FormatInt(fineTo, 10))
 		cmd.Env = append(os.Environ(), "GOMAXPROCS="+workerProcs(c), "GOTRACEBACK=single", "GORACE=halt_on_error=0 exitcode=0")
 		if c.CrashTolerant {
 			d, _ := os.MkdirTemp("", "vcheck-"+c.ID+"-")
@@ -531,6 +552,17 @@ func runWorker(c *Check, tier string, shard, n int, deadline time.Duration, res 
 		pmu.Lock()
 		wasHung := hung
 		pmu.Unlock()
+		if !lastWAL.Fine {
+			// the worker died somewhere in the batch that starts at the last announced case: run that
+			// batch again, announcing every case
+			fineFrom, fineTo = lastWAL.Idx, lastWAL.Idx+WALBatch*int64(n)+1
+			resume = lastWAL.Idx
+			restarts++
+			mu.Lock()
+			res.stats = append(res.stats, &Stats{Extra: map[string]int64{"batches_rerun_in_fine_mode": 1}})
+			mu.Unlock()
+			continue
+		}
 		if v := c.OnCrash(lastWAL.Case, stderr.String(), wasHung); v != nil {
 			v.Property, v.Tier = c.ID, tier
 			mu.Lock()
@@ -758,7 +790,7 @@ func replayInSubprocess(v *Violation) bool {
 	b, _ := json.Marshal(v)
 	f.Write(b)
 	f.Close()
-	cmd := exec.Command(os.Args[0], "replay", f.Name())
+	cmd := exec.Command(selfPath(), "replay", f.Name())
 	cmd.Env = append(os.Environ(), "GOMAXPROCS=2")
 	done := make(chan error, 1)
 	if err := cmd.Start(); err != nil {
@@ -774,6 +806,16 @@ func replayInSubprocess(v *Violation) bool {
 		<-done
 		return false // does not return: still violating
 	}
+}
+
+func selfPath() string {
+	if p, err := os.Executable(); err == nil {
+		return p
+	}
+	if p, err := filepath.Abs(os.Args[0]); err == nil {
+		return p
+	}
+	return os.Args[0]
 }
 
 func trunc(s string, n int) string {
